@@ -267,7 +267,7 @@ struct Outcome { string verdict, klass; bool nontrivial = false; uint64_t fp = 0
 
 Outcome run_case(const Case &c) {
   Outcome o;
-  Ctx x; char u[48]; snprintf(u, sizeof u, "%d", (int)getpid()); x.uniq = u;
+  Ctx x; char u[64]; snprintf(u, sizeof u, "%d_%lx", (int)getpid(), ({ struct timespec ts_; clock_gettime(CLOCK_MONOTONIC, &ts_); (long)(ts_.tv_sec * 1000000000L + ts_.tv_nsec); })); x.uniq = u;
   size_t live0 = va::live_count(); int fds0 = count_fds(); int maps0 = count_shm_maps(); long bytes0 = shm_map_bytes();
   auto fail = [&](const string &k, const string &m) { if (o.verdict.empty()) { o.verdict = m; o.klass = k; } };
   size_t idx = 0;
